@@ -49,7 +49,10 @@ class HttpImpl:
         for cp in (CAL, BOOK, "/user/inbox"):
             cfg = os.path.join(self.root, "data" + cp, ".xandikos")
             if os.path.isfile(cfg):
-                lines.append("hcfg %s %s" % (enc(cp), enc(self.toks.tok(open(cfg, "rb").read()))))
+                # the metadata file's token is its text (`cfg:` + text), which the configparser model reads;
+                # a `bN` token here was read as the text after its first four characters — nothing for
+                # `b123`, a syntax error for `b1234`
+                lines.append("hcfg %s %s" % (enc(cp), enc("cfg:" + open(cfg, "rb").read().decode("utf-8", "replace"))))
         return lines
 
     def target(self, path):
